@@ -174,6 +174,7 @@ func cmdCheck(args []string) int {
 		os.MkdirAll(dir, 0o755)
 	}
 
+	checkProp = prop
 	// generate
 	type job struct {
 		res    *FuncResult
